@@ -56,12 +56,32 @@ class Prop(BaseProp):
     HEADLINE = ["doc_lines_expected", "doc_lines_verified", "docs_checked", "nonascii_lines", "cli_runs"]
 
     def n_cases(self, tier):
-        return 6000 if tier == "quick" else 60000
+        return (6000 if tier == "quick" else 60000) + 1      # last case: contracts under the repository's own tests
 
     def setup_worker(self):
         runner.cminx()
 
+    def contracts_case(self, res):
+        """Runtime contracts on the real functions while the repository's own tests run (vf/pytest_contracts.py)."""
+        from ..contracts_run import run_repo_tests
+        rc, out, data = run_repo_tests(['tests/unit_tests/test_aggregator.py', 'tests/test_samples', 'tests/unit_tests/test_documenter.py'])
+        res.sig = "contracts-under-repo-tests"
+        res.nontrivial = True
+        if data is None:
+            res.skipped = "contract-run-produced-no-report"
+            return res
+        res.see("contract_backend", "icontract" if data.get("icontract") else "in-house wrapper")
+        for k, v in data["evaluations"].items():
+            res.count("contract_evaluations_under_repo_tests:" + k, v)
+        for v in data["violations"]:
+            if v["kind"] in ('clean_doc_lines-postcondition',):
+                res.violate("contract-under-repo-tests:" + v["kind"], v["detail"], {"tests": ['tests/unit_tests/test_aggregator.py', 'tests/test_samples', 'tests/unit_tests/test_documenter.py']})
+        res.sample = {"contracts_under_repo_tests": data["evaluations"], "pytest_tail": out[-120:]}
+        return res
+
     def run_case(self, idx, rng):
+        if idx == self.n_cases(self.tier) - 1:
+            return self.contracts_case(CaseResult())
         res = CaseResult()
         classes = []
         ascii_only = idx % 3 == 0
@@ -113,7 +133,7 @@ class Prop(BaseProp):
         nv = len(res.violations)
         self.check_page(res, mod, exp, rst)
         # sample through the real command line with -o, file read back as UTF-8
-        if idx % 60 == 0:
+        if idx % 150 == 0:
             with runner.sandbox() as sb:
                 src = os.path.join(sb, "in.cmake")
                 with open(src, "w", encoding="utf-8", newline="") as f:
